@@ -208,7 +208,7 @@ func stepsGen(rt *rapid.T, label string) []ProviderStep {
 		switch k {
 		case "resp":
 			st.Status = oneOf(rt, fmt.Sprintf("%s_%d_status", label, i), 200, 200, 204, 301, 400, 404, 429, 499, 500, 503)
-			st.Body = oneOf(rt, fmt.Sprintf("%s_%d_body", label, i), "203.0.113.7", " 203.0.113.7\n", "2001:db8::7", "not an ip", "", "999.1.1.1", "<html>203.0.113.7</html>")
+			st.Body = oneOf(rt, fmt.Sprintf("%s_%d_body", label, i), "203.0.113.7", " 203.0.113.7\n", "2001:db8::7", "not an ip", "", "999.1.1.1", "<html>203.0.113.7</html>", "fe80::7%eth0", "2001:db8::7%1", "203.0.113.7/32", "203.0.113.7:80")
 			st.DelayMs = oneOf(rt, fmt.Sprintf("%s_%d_delay", label, i), 0, 10, 700, 2500)
 		case "slow-body":
 			st.Body = "203.0.113.7"
